@@ -47,3 +47,37 @@ package txnlock
 //@   may-panic
 //@   opaque-callee resolveActionLabel Backoff
 //@   at call(SendReq) assert outcome: lreq.StartVersion == l.TxnID && lreq.CommitVersion == ite(status.commitTS > 0, status.commitTS, 0) && arg_req != nil && arg_req.Req.(*kvrpcpb.ResolveLockRequest) == lreq && arg_regionID == loc.Region
+
+// Resolving a list of keys in one region: the request names the lock's transaction and exactly the keys given, and carries
+// a commit timestamp exactly when the status says committed - then the status's; a region error is paid for with a
+// back-off and the keys are grouped again (never dropped).
+//@ func (*LockResolver) resolveRegionLocks
+//@   prop C04
+//@   may-panic
+//@   opaque-callee resolveActionLabel GroupKeysByRegion GetRegionError RequestSourceFromCtx ResourceGroupNameFromCtx ExtractDebugInfoStrFromKeyErr
+//@   loop 1 invariant l1: true
+//@   at call(SendReq) assert outcome: lreq.StartVersion == l.TxnID && lreq.CommitVersion == ite(status.commitTS > 0, status.commitTS, 0) && lreq.Keys == keys && arg_req != nil && arg_req.Req.(*kvrpcpb.ResolveLockRequest) == lreq && arg_regionID == region
+//@   at call(resolveRegionLocks) assert again: arg_l == l && arg_status == status
+//@   at return assert answered: result == nil ==> regionErr != nil || resp.Resp != nil
+
+// GC's batch resolution: the outcome recorded for a transaction and sent to the store is the commit timestamp that the
+// status check (or, for async commit, the check of all secondaries) reported for that very transaction - zero meaning
+// roll back - and a transaction whose status still shows a live lock (ttl > 0) stops the batch with an error.
+//@ spec func reported(txn uint64) uint64
+//@ func (*LockResolver) getTxnStatus
+//@   trusted
+//@   modifies nothing
+//@   ensures result1 == nil && result0.ttl == 0 ==> result0.commitTS == reported(txnID)
+//@ func (*LockResolver) checkAllSecondaries
+//@   trusted
+//@   modifies nothing
+//@   ensures result1 == nil ==> result0 != nil && result0.commitTs == reported(l.TxnID)
+//@ func (*LockResolver) BatchResolveLocks
+//@   prop C04
+//@   may-panic
+//@   opaque-callee resolvePessimisticLock GetRegionError RequestSourceFromCtx ResourceGroupNameFromCtx
+//@   loop 1 invariant infos: txnInfos != nil && forall t uint64 :: inDom(txnInfos, t) ==> txnInfos[t] == reported(t)
+//@   loop 2 invariant sent: forall i int :: 0 <= i && i < len(listTxnInfos) ==> listTxnInfos[i] != nil && listTxnInfos[i].Status == reported(listTxnInfos[i].Txn)
+//@   loop 2 invariant infos: forall t uint64 :: inDom(txnInfos, t) ==> txnInfos[t] == reported(t)
+//@   at call(SendReq) assert outcome: arg_req != nil && arg_regionID == loc && forall i int :: 0 <= i && i < len(arg_req.Req.(*kvrpcpb.ResolveLockRequest).TxnInfos) ==>
+//@       arg_req.Req.(*kvrpcpb.ResolveLockRequest).TxnInfos[i].Status == reported(arg_req.Req.(*kvrpcpb.ResolveLockRequest).TxnInfos[i].Txn)
